@@ -251,9 +251,14 @@ func (h *httpServer) checkIPWhitelist(addr string) bool {
 		return true
 	}
 	whitelist := h.cfg.GetModuleConfig().RPC.Whitelist
-	// the misspelt key `whitlist` is accepted too, consistent with rpc.InitIPWhitelist
+	// the misspelt key `whitlist` is accepted too, with the precedence of rpc.InitIPWhitelist:
+	// a wildcard under either key wins, then `whitelist`, then `whitlist`
+	whitlist := h.cfg.GetModuleConfig().RPC.Whitlist
+	if len(whitlist) == 1 && whitlist[0] == "*" {
+		return true
+	}
 	if len(whitelist) == 0 {
-		whitelist = h.cfg.GetModuleConfig().RPC.Whitlist
+		whitelist = whitlist
 	}
 	// "*" means allow all IPs, consistent with rpc.InitIPWhitelist
 	if len(whitelist) == 0 || (len(whitelist) == 1 && whitelist[0] == "*") {
